@@ -221,6 +221,13 @@ def run(ctx):
     for _ in range(3 if q else 30):
         fn_stream(ctx, 4, rng.choice(o4), rng.choice(o4), [rng.getrandbits(16) for _ in range(2)],
                   extra=rng.choice([0, 1]), reordering=rng.random() < 0.4)
+    # larger copies into a target that reorders several times WHILE it is being copied into
+    # (what the memo keeps must stay alive and keep its meaning across those reorderings)
+    for _ in range(6 if q else 60):
+        so = tuple(rng.sample(range(5), 5))
+        to = tuple(rng.sample(range(5), 5))
+        fn_stream(ctx, 5, so, to, [rng.getrandbits(32) for _ in range(rng.randint(2, 3))],
+                  extra=rng.choice([0, 1, 2]), reordering=True)
     # copy_vars with gaps is impossible (levels are a bijection): every order of <= 4
     import dd._copy as C
     for n in (1, 2, 3, 4):
